@@ -22,7 +22,11 @@ import os
 import sys
 import time
 
+import warnings
+
 import numpy as np
+
+warnings.filterwarnings("ignore", message="Casting complex values to real")
 
 LEAN_TARGETS = ["YProofs.Props.C07"]
 LEVEL = "proof"
@@ -429,7 +433,7 @@ def lean_terms_check(ctx, case):
         return
     fam = fam_by_key(case["fam"])
     N, fmap, terms = case["N"], case["fmap"], case["terms"]
-    if fam.d ** N > 64 or any(t[0][2] == "float" for t in terms):
+    if fam.d ** N > 64 or any(float(t[0][0]) != int(t[0][0]) or float(t[0][1]) != int(t[0][1]) for t in terms):
         return
     fpos = list(range(N)) if fmap is None else list(fmap)
     req = {"op": "terms_dense", "cls": fam.cls_name, "sym": fam.sym, "N": N, "fpos": fpos,
@@ -657,6 +661,8 @@ def check_measure_case(ctx, case):
             for i in range(N):
                 for j in range(N):
                     ref[(i, j)] = expect(fam, N, vb, vk, [i, j], [O, P])
+            ctx.count("measure:2site:ref-nonzero", sum(1 for x in ref.values() if abs(x) > 1e-9))
+            ctx.count("measure:2site:ref-zero", sum(1 for x in ref.values() if abs(x) <= 1e-9))
             for pat in case["patterns"]:
                 got = mps.measure_2site(bra, T[O], T[P], ket, bonds=pat)
                 exp_pairs = doc_pairs(pat, N)
@@ -684,6 +690,7 @@ def check_measure_case(ctx, case):
         elif which == "nsite":
             sites = case["sites"]
             ref = expect(fam, N, vb, vk, sites, names)
+            ctx.count("measure:nsite:ref-nonzero" if abs(ref) > 1e-9 else "measure:nsite:ref-zero")
             ops_ = [fam.table[nm][0] for nm in names]
             got = mps.measure_nsite(bra, *ops_, ket=ket, sites=sites)
             if not close(got, ref, scale):
@@ -951,9 +958,9 @@ def run(ctx):
     check_tables(ctx)
     check_parse_bonds(ctx)
 
-    n_main = 3 if quick else 24
-    n_fmap = 2 if quick else 12
-    n_zero = 1 if quick else 6
+    n_main = 9 if quick else 40
+    n_fmap = 6 if quick else 25
+    n_zero = 2 if quick else 8
     for fam in fams:
         if fam.names == ["I"]:
             strata = [("main", 1 if quick else 3)]
@@ -998,7 +1005,7 @@ def run(ctx):
     for fam in fams:
         charged = [nm for nm in fam.names if fam.table[nm][2] != fam.zero()]
         pool = [nm for nm in fam.names if nm != "I"] or ["I"]
-        reps = 1 if quick else 5
+        reps = 2 if quick else 8
         for _ in range(reps):
             N = min(pick_N(fam, rng, quick), 5 if fam.d <= 2 else 4 if fam.d == 3 else 3 if quick else 4)
             # 1-site
@@ -1020,8 +1027,7 @@ def run(ctx):
                 names = [rng.choice(pool) for _ in range(k)]
                 sites = [rng.randrange(N) for _ in range(k)]
                 if onsite_zero(fam, sites, names):
-                    ctx.count("measure:nsite:skipped-zero-onsite")
-                    continue
+                    ctx.count("measure:nsite:zero-onsite-product")
                 case = {"kind": "measure", "which": "nsite", "fam": fam.key, "N": N, "names": names, "sites": sites,
                         "seed": rng.randrange(2 ** 40), "cplx": rng.random() < 0.3}
                 ctx.case(case)
